@@ -367,3 +367,115 @@ package main
 //@   ensures [gone] !(name in c.svcAds)
 //@   ensures [others] forall s string :: s != name ==> (s in c.svcAds) == old(s in c.svcAds) && sameSlice(c.svcAds[s], old(c.svcAds[s]))
 //@   modifies map(c.svcAds), map[string]sets.Set[string], bgpController.activeAds, $held
+
+// ---- C09: what the speaker has announced is a function of the current inputs ----
+// The protocol handlers (BGP controller, layer-2 controller) are used through the Protocol interface. Their own
+// state is not modelled here (it is separate from the controller's maps: a handler holds no reference to the
+// controller); ShouldAnnounce is a pure decision on its arguments.
+//@ func (Protocol).ShouldAnnounce
+//@   trusted
+//@   ensures result == Decision(self, arg1, arg2, arg3, arg4, arg5, arg6)
+//@   modifies nothing
+//@ func (Protocol).SetBalancer
+//@   trusted
+//@   modifies nothing
+//@ func (Protocol).DeleteBalancer
+//@   trusted
+//@   modifies nothing
+//@ func (service).Infof
+//@   trusted
+//@   modifies nothing
+
+// HasProto: p is one of the configured protocols.
+//@ pred HasProto(c *controller, p config.Proto) := exists k int :: 0 <= k && k < len(c.protocols) && c.protocols[k] == p
+// CtlCore: a flag map and a handler per protocol (distinct inner maps), flags only for configured protocols.
+//@ pred CtlCore(c *controller) := c != nil && c.announced != nil && c.svcIPs != nil && c.protocolHandlers != nil &&
+//@     (forall k int :: 0 <= k && k < len(c.protocols) ==> c.announced[c.protocols[k]] != nil && c.protocolHandlers[c.protocols[k]] != nil) &&
+//@     (forall k1 int, k2 int :: 0 <= k1 && k1 < len(c.protocols) && 0 <= k2 && k2 < len(c.protocols) && c.protocols[k1] != c.protocols[k2] ==> c.announced[c.protocols[k1]] != c.announced[c.protocols[k2]]) &&
+//@     (forall p config.Proto :: { mapval(c.announced, p) } !HasProto(c, p) ==> c.announced[p] == nil)
+// AnyProto: some protocol announces s.
+//@ pred AnyProto(c *controller, s string) := exists k int :: 0 <= k && k < len(c.protocols) && c.announced[c.protocols[k]][s]
+// CtlInv: additionally the recorded addresses exist exactly for the services announced by some protocol.
+//@ pred CtlInv(c *controller) := CtlCore(c) && (forall s string :: (s in c.svcIPs) == AnyProto(c, s))
+
+// the metrics vector is created at package initialisation
+//@ pred MetricsOK() := announcing != nil && announcing.MetricVec != nil
+//@ func (*controller).deleteBalancerProtocol
+//@   requires CtlInv(c) && HasProto(c, protocol) && MetricsOK()
+//@   ensures [inv] CtlInv(c)
+//@   ensures [gone] result != controllers.SyncStateError ==> !c.announced[protocol][name]
+//@   ensures [failed] result == controllers.SyncStateError ==> (forall p config.Proto, s string :: c.announced[p][s] == old(c.announced[p][s])) && (forall s string :: (s in c.svcIPs) == old(s in c.svcIPs) && sameSlice(c.svcIPs[s], old(c.svcIPs[s])))
+//@   ensures [others] forall p config.Proto, s string :: (p != protocol || s != name) ==> c.announced[p][s] == old(c.announced[p][s])
+//@   ensures [ips] forall s string :: s != name ==> (s in c.svcIPs) == old(s in c.svcIPs) && sameSlice(c.svcIPs[s], old(c.svcIPs[s]))
+//@   ensures [ipsKept] (name in c.svcIPs) ==> sameSlice(c.svcIPs[name], old(c.svcIPs[name]))
+//@   modifies map(c.announced[protocol]), map(c.svcIPs), fresh map[string]string, fresh []interface{}
+//@   assert before len#1: [core] CtlCore(c)
+//@   assert before len#1: [mine] c.announced[protocol][name] && (name in c.svcIPs)
+//@   assert before len#1: [any] AnyProto(c, name)
+//@   assert before len#1: [otherFlags] forall p config.Proto, s string :: (p != protocol || s != name) ==> c.announced[p][s] == old(c.announced[p][s])
+//@   assert before len#1: [otherAny] forall s string :: s != name ==> AnyProto(c, s) == old(AnyProto(c, s))
+//@   assert before len#1: [ipsInv] forall s string :: (s in c.svcIPs) == AnyProto(c, s)
+//@   loop 1 invariant CtlInv(c) && c.announced[protocol][name] && (forall p config.Proto, s string :: (p != protocol || s != name) ==> c.announced[p][s] == old(c.announced[p][s]))
+//@   loop 1 invariant forall s string :: s != name ==> (s in c.svcIPs) == old(s in c.svcIPs) && sameSlice(c.svcIPs[s], old(c.svcIPs[s]))
+//@   loop 1 invariant CtlInv(c) && c.announced[protocol][name]
+//@   loop 2 invariant CtlCore(c) && (forall s string :: s != name ==> (s in c.svcIPs) == AnyProto(c, s)) && !c.announced[protocol][name] && (forall k int :: 0 <= k && k < iter ==> !c.announced[c.protocols[k]][name])
+//@   loop 2 invariant (name in c.svcIPs) == old(name in c.svcIPs) && sameSlice(c.svcIPs[name], old(c.svcIPs[name])) && old(name in c.svcIPs)
+//@   loop 2 invariant forall p config.Proto, s string :: (p != protocol || s != name) ==> c.announced[p][s] == old(c.announced[p][s])
+//@   loop 2 invariant forall s string :: s != name ==> (s in c.svcIPs) == old(s in c.svcIPs) && sameSlice(c.svcIPs[s], old(c.svcIPs[s]))
+
+//@ func (*controller).deleteBalancer
+//@   requires CtlInv(c) && MetricsOK()
+//@   ensures [inv] CtlInv(c)
+//@   ensures [gone] result != controllers.SyncStateError ==> (forall p config.Proto :: !c.announced[p][name]) && !(name in c.svcIPs)
+//@   ensures [others] forall p config.Proto, s string :: s != name ==> c.announced[p][s] == old(c.announced[p][s])
+//@   ensures [ips] forall s string :: s != name ==> (s in c.svcIPs) == old(s in c.svcIPs) && sameSlice(c.svcIPs[s], old(c.svcIPs[s]))
+//@   modifies map[string]bool, map(c.svcIPs), fresh map[string]string, fresh []interface{}
+//@   loop 1 invariant CtlInv(c) && (forall k int :: 0 <= k && k < iter ==> !c.announced[c.protocols[k]][name])
+//@   loop 1 invariant forall p config.Proto, s string :: s != name ==> c.announced[p][s] == old(c.announced[p][s])
+//@   loop 1 invariant forall s string :: s != name ==> (s in c.svcIPs) == old(s in c.svcIPs) && sameSlice(c.svcIPs[s], old(c.svcIPs[s]))
+//@   loop 1 invariant forall p config.Proto :: c.announced[p][name] ==> old(c.announced[p][name])
+
+// Decision: what a handler's ShouldAnnounce answers ("" = announce) - a function of the current inputs (the logger aside).
+//@ ufun Decision(Protocol, string, []net.IP, *config.Pool, *v1.Service, []discovery.EndpointSlice, map[string]*v1.Node) string
+//@ func (*controller).handleService
+//@   requires CtlInv(c) && HasProto(c, protocol) && MetricsOK() && c.client != nil && svc != nil
+//@   ensures [inv] CtlInv(c)
+//@   ensures [ipsName] (name in c.svcIPs) ==> sameSlice(c.svcIPs[name], lbIPs) || (old(name in c.svcIPs) && sameSlice(c.svcIPs[name], old(c.svcIPs[name])))
+//@   ensures [flag] result != controllers.SyncStateError ==> c.announced[protocol][name] == (Decision(c.protocolHandlers[protocol], name, lbIPs, pool, svc, eps, c.nodes) == "")
+//@   ensures [others] forall p config.Proto, s string :: (p != protocol || s != name) ==> c.announced[p][s] == old(c.announced[p][s])
+//@   ensures [ips] forall s string :: s != name ==> (s in c.svcIPs) == old(s in c.svcIPs) && sameSlice(c.svcIPs[s], old(c.svcIPs[s]))
+//@   modifies map(c.announced[protocol]), map(c.svcIPs), fresh map[string]string, fresh []interface{}
+
+// IPsMatch: same number of addresses and every address of a is Equal to one of b (what compareIPs decides).
+//@ pred IPsMatch(a []net.IP, b []net.IP) := len(a) == len(b) && (forall i int :: 0 <= i && i < len(a) ==> len(a[i]) >= 0 && (exists j int :: 0 <= j && j < len(b) && a[i].Equal(b[j])))
+//@ func compareIPs
+//@   ensures result == IPsMatch(ips1, ips2)
+//@   modifies nothing
+//@   loop 1 invariant len(ips1) == len(ips2) && (forall i int :: 0 <= i && i < iter ==> (exists j int :: 0 <= j && j < len(ips2) && ips1[i].Equal(ips2[j])))
+//@   loop 2 invariant 0 <= idx(1) && idx(1) < len(ips1) && ip1 == ips1[idx(1)] && (found ==> (exists j int :: 0 <= j && j < len(ips2) && ip1.Equal(ips2[j]))) && (!found ==> (forall j int :: 0 <= j && j < iter ==> !ip1.Equal(ips2[j])))
+
+// the speaker's own pool lookup (the pool containing all addresses, "" if none): only its frame is needed here
+//@ func poolFor
+//@   trusted
+//@   modifies nothing
+
+// controller.SetBalancer (speaker): nothing stays announced for a Service that was deleted, is not a LoadBalancer, has no
+// (valid) address or whose address lies in no pool; if the addresses changed the old announcement is withdrawn first;
+// per protocol the flag then follows the handler's decision (handleService [flag]).
+//@ func (*controller).SetBalancer
+//@   requires CtlInv(c) && MetricsOK() && c.client != nil
+//@   ensures [inv] CtlInv(c)
+//@   ensures [deleted] (svc == nil || svc.Spec.Type != "LoadBalancer") && result != controllers.SyncStateError ==> (forall p config.Proto :: !c.announced[p][name]) && !(name in c.svcIPs)
+//@   ensures [noAddress] svc != nil && svc.Spec.Type == "LoadBalancer" && c.config != nil && len(svc.Status.LoadBalancer.Ingress) == 0 && result != controllers.SyncStateError ==>
+//@       (forall p config.Proto :: !c.announced[p][name]) && !(name in c.svcIPs)
+//@   ensures [others] forall p config.Proto, s string :: s != name ==> c.announced[p][s] == old(c.announced[p][s])
+//@   ensures [ips] forall s string :: s != name ==> (s in c.svcIPs) == old(s in c.svcIPs) && sameSlice(c.svcIPs[s], old(c.svcIPs[s]))
+//@   modifies map[string]bool, map(c.svcIPs), fresh map[string]string, fresh []interface{}, fresh []net.IP
+//@   assert before deleteBalancer#3: [invalid] true
+//@   assert after handleService: [self] forall i int :: { lbIPs[i] } 0 <= i && i < len(lbIPs) ==> lbIPs[i].Equal(lbIPs[i])
+//@   assert after handleService: [selfMatch] IPsMatch(lbIPs, lbIPs)
+//@   assert after handleService: [stillMatch] (name in c.svcIPs) ==> IPsMatch(lbIPs, c.svcIPs[name])
+//@   assert before handleService: [withdrawnFirst] (name in c.svcIPs) ==> IPsMatch(lbIPs, c.svcIPs[name])
+//@   loop 1 invariant CtlInv(c) && (lbIPs == nil || fresh(lbIPs)) && (forall p config.Proto, s string :: c.announced[p][s] == old(c.announced[p][s])) && (forall s string :: (s in c.svcIPs) == old(s in c.svcIPs) && sameSlice(c.svcIPs[s], old(c.svcIPs[s])))
+//@   loop 2 invariant CtlInv(c) && (forall p config.Proto, s string :: s != name ==> c.announced[p][s] == old(c.announced[p][s])) && (forall s string :: s != name ==> (s in c.svcIPs) == old(s in c.svcIPs) && sameSlice(c.svcIPs[s], old(c.svcIPs[s])))
+//@   loop 2 invariant (name in c.svcIPs) ==> IPsMatch(lbIPs, c.svcIPs[name])
